@@ -32,6 +32,12 @@ def gen_history_case(ctx, run, prop, **over):
     cfg["npkeys"] = rc.random() < 0.4      # numpy-integer / bool item keys (never in workloads that go through printed text)
     if cfg["npkeys"]:
         cfg["weights"]["load"] = 0
+    if prop == "C01" and cfg["g_restricted"] and rc.random() < 0.4:
+        # actions of function tasks that assign their results through the manager's references (an assignment made
+        # from inside a running update: its dependants are run at once, and again where the outer update has them).
+        # Contents only: "exactly once" (C02) is not what the unmodified code does for such actions.
+        cfg["ft_via_ref"] = True
+        cfg["weights"]["regf"] = max(cfg["weights"].get("regf", 0), 8)
     spec = gen_spec(rng_for(ctx.seed, prop, run, "spec"), cfg)
     hg = HistoryGen(rng_for(ctx.seed, prop, run, "ops"), cfg, spec)
     ops = hg.history()
